@@ -2,6 +2,7 @@ package main
 
 import (
 	"math/big"
+	"strings"
 
 	"golang.org/x/tools/go/ssa"
 )
@@ -13,6 +14,9 @@ func (ex *Exec) divModPos(a Term, m *big.Int) (Term, Term) {
 	if a.Const {
 		q, r := new(big.Int).DivMod(a.I, m, new(big.Int))
 		return IntB(q), IntB(r)
+	}
+	if q, ok := divExact(a, m); ok {
+		return q, IntC(0)
 	}
 	key := a.S + "|" + m.String()
 	if qr, ok := ex.divMemo[key]; ok {
@@ -49,6 +53,9 @@ func (ex *Exec) chopRoundX(d Term) Term {
 	if d.Const {
 		return constChop(d.I)
 	}
+	if q, ok := divExact(d, prec); ok {
+		return q // no remainder: rounding is the identity
+	}
 	d = ex.nameT(d)
 	a := ex.nameT(Abs(d))
 	q, r := ex.divModPos(a, prec)
@@ -75,12 +82,59 @@ func constChop(d *big.Int) Term {
 
 // roundHalfUpX: LegacyDec.RoundInt = half-even rounding of raw/10^18 too (chopPrecisionAndRoundNonMutative).
 
+// tryConst: is the term forced to a single value by the path condition? (solver-decided concretisation: one model,
+// then an unsat check that no other value is possible). Used for divisors drawn from a grid by the harness.
+func (ex *Exec) tryConst(t Term) Term {
+	if t.Const || t.Bool {
+		return t
+	}
+	if c, ok := ex.constMemo[t.S]; ok {
+		return c
+	}
+	res := t
+	sl := ex.pcSlice(t)
+	ex.begin(sl, BoolC(true))
+	if ex.solver.Check() == "sat" {
+		v := ex.solver.GetValueTerm(t.S)
+		if bi, ok := parseSMTInt(v); ok {
+			if ex.query(Not(Eq(t, IntB(bi))), false) == "unsat" {
+				res = IntB(bi)
+			}
+		}
+	}
+	ex.constMemo[t.S] = res
+	return res
+}
+
+func parseSMTInt(s string) (*big.Int, bool) {
+	s = strings.TrimSpace(s)
+	neg := false
+	if strings.HasPrefix(s, "(-") {
+		neg = true
+		s = strings.TrimSpace(strings.TrimSuffix(strings.TrimPrefix(s, "(-"), ")"))
+	}
+	v, ok := new(big.Int).SetString(s, 10)
+	if !ok {
+		return nil, false
+	}
+	if neg {
+		v.Neg(v)
+	}
+	return v, true
+}
+
 // truncDivX: truncated a / b for b != 0 using auxiliary constants: |a| = q*|b| + r.
 func (ex *Exec) truncDivX(a, b Term) Term {
+	if !b.Const && ex.cfg.Concretize {
+		b = ex.tryConst(b)
+	}
 	if a.Const && b.Const {
 		return TDiv(a, b)
 	}
 	if b.Const {
+		if q, ok := divExact(a, b.I); ok {
+			return q
+		}
 		absB := new(big.Int).Abs(b.I)
 		a = ex.nameT(a)
 		q, _ := ex.divModPos(ex.nameT(Abs(a)), absB)
@@ -255,6 +309,12 @@ func init() {
 		}
 		m[ld+"Mul"] = func(ex *Exec, fr *frame, cc *ssa.CallCommon, a []Value) Value {
 			x, y := ti(a[0]), ti(a[1])
+			if ex.cfg.Concretize && !x.Const && !y.Const {
+				y = ex.tryConst(y)
+				if !y.Const {
+					x = ex.tryConst(x)
+				}
+			}
 			if ex.cfg.Abstract && !x.Const && !y.Const {
 				return VInt{ex.abstractArithK("absmul", x, y)}
 			}
